@@ -15,21 +15,30 @@ CLAIMED = {
     "C02": ("CGNetlist gives the denotation Den(program) of the structural Verilog subset (Kleene truth table of every net); "
             "seeded programs (any statement order, nesting, repeated sub-expressions, constants, blackbox instances with "
             "connected/unconnected/omitted pins, synthetic-looking and escaped names, comments, blanks) are parsed by the real "
-            "LALR parser and TLC judges the circuit against Den; disagreeing port lists must be rejected. One open known "
-            "finding (net named like an inner expression gate).", "6 C02"),
+            "LALR parser and TLC judges the circuit against Den; disagreeing port lists must be rejected. CGExprReader is the "
+            "as-built machine of the reader (statements in text order, invented gate names, reserved identifiers): MCExprReader "
+            "checks that its circuit denotes the program for 9144 small programs in both statement orders (and reproduces the "
+            "repaired capture defects when run without reserved identifiers); the circuit the real reader builds must equal "
+            "the machine's (drift clause, about 500 events per quick run).", "6 C02"),
     "C03": ("circuit_to_verilog -> verilog_to_circuit (both styles, and to_file/from_file) on TLC-enumerated G1/G2 and random "
             "circuits with constants, feed-through outputs, flops with unconnected pins, escaped names; TLC judges name, io, "
-            "instances and pin nets, Kleene-equal functions, identical graph for the gate form without constants.", "6 C03"),
+            "instances and pin nets, Kleene-equal functions, identical graph for the gate form without constants. CGVerilogIO / "
+            "CGExprReader model the writer (both styles) and the readers: MCVerilogIO and MCBehavioural check the round trip "
+            "inside the model for about 5700 circuits each; the text the real writer produced is read back into abstract syntax "
+            "and compared with the writer model, and the circuit read back with the reader machine (drift clauses).", "6 C03"),
     "C13": ("Every generated block (adder, mux, popcount, half/full adder; widths to 64) is evaluated by TLC from its recorded "
             "structure on all vectors (<= 11 inputs) or recorded corner + random vectors, against arithmetic on bit sequences "
             "in the specification; clog2 and int_to_bin/bin_to_int judged on exhaustive small and wide values.", "6 C13"),
     "C14": ("Programs of the fast parser's documented subset, laid out like the writer with arbitrary non-empty blank runs, the "
             "writer's own output and bundled c17 netlists are parsed by both parsers; TLC judges identical graphs up to constant "
-            "names, same io / instances / pin nets and Kleene-equal functions. One open known finding (repeated parity "
-            "operands).", "6 C14"),
+            "names, same io / instances / pin nets and Kleene-equal functions; MCVerilogIO checks that the two reader models "
+            "satisfy the same relation on every written program of the families; both real readers must equal their models "
+            "(drift clauses).", "6 C14"),
     "C15": ("Bench programs (any line order, case, DFF chains, blank variants) are parsed by the real reader and judged by TLC "
             "against Den(program); circuit_to_bench -> bench_to_circuit round trips on G1/G2/random circuits with constants are "
-            "judged for io and function equality.", "6 C15"),
+            "judged for io and function equality. CGBenchIO models writer and reader (constants as parity of any one input with "
+            "itself, uid-numbered _dup buffers in text order: a set of results); MCBenchIO checks the round trip inside the model "
+            "for 15286 circuit / input pairs; real results must be among the model's (drift clauses, every event).", "6 C15"),
     "C04": ("Every recorded tx.miter result (self, copy, fan-in-limited, mutated and arbitrary pairs from TLC-enumerated G1/G2 and "
             "random circuits; startpoint/endpoint choices None, all, subsets, singletons) is judged by TLC: inputs = tied "
             "startpoints, output sat, truth table of sat = union of per-endpoint differences with untied startpoints independent; "
@@ -43,11 +52,16 @@ CLAIMED = {
             "sensitization_transform, sensitize, sensitivity_transform, sensitivity, influence, avg_sensitivity results are judged by "
             "TLC from the flip-node / flip-input definitions on truth-table sets.", "6 C11"),
     "C17": ("Recorded supergates results (list and super-circuit form) are judged by TLC declaratively: single output, induced "
-            "wiring, cover, disjoint input fan-in, order, composition reproduces every output. One open known finding (multi-output "
-            "circuits whose cones share gates).", "6 C17"),
+            "wiring, cover, disjoint input fan-in, order, composition reproduces every output. CGSupergates is the as-built model "
+            "(per-cone dominators from their definition, block expansion, cover filter, keyed dict): MCSupergates checks the whole "
+            "relation on every possible result for one-output, disjoint-cone and shared-cone families (the last one after a "
+            "repair that was model-checked first); real results must be among the model's. One open known finding (overlapping "
+            "blocks of two cones make the ordering graph cyclic, about 1 in 1000 random multi-output circuits).", "6 C17"),
     "C18": ("Recorded acyclic_unroll results on cyclic circuits are judged by TLC with the all-bits method: acyclic, lint-clean, same "
             "outputs, and every stable state of the original is reproduced at every output when the auxiliary inputs carry the "
-            "stable values.", "6 C18"),
+            "stable values. MCFas is the as-built state machine of the feedback-arc heuristic (every digraph on 3-4 nodes, 5 in "
+            "thorough, every tie-break: the cut always breaks every cycle, terminates); MCAcyclicUnroll judges the unroll program "
+            "for every feedback set the heuristic can return; the recorded feedback set and circuit must be among the model's.", "6 C18"),
     "C06": ("Every recorded add_subcircuit / fill_blackbox / strip_blackboxes call (random parents with and without flops, "
             "library and random children incl. nested blackboxes and feed-through pins, every connection choice, repeated "
             "instantiation, fill after add_blackbox) is judged by TLC (JudgeComp): structural clauses plus functional "
@@ -65,8 +79,9 @@ CLAIMED = {
             "MCApi: every history of depth 4 from the empty circuit over a small universe, MCApiStep: one rich call from every "
             "legal circuit over the universe (inductive step) - TypeOK, LegalWiring, BBConsistent, RejectedAddsNoEdge hold (TLC "
             "found two real counterexample histories, since repaired). Conformance both ways: TLC-simulated behaviours and EVERY "
-            "transition of the connect-focused config are replayed on a real Circuit and compared; seeded random histories are "
-            "judged step by step by TLC (JudgeApi).", "6 C07"),
+            "transition of the connect-, add- and composition-focused configs are replayed on a real Circuit and compared; seeded "
+            "random histories and the API histories of the repository's own test suite (mutators wrapped at run time, about 400 "
+            "histories / 2000 calls) are judged step by step by TLC (JudgeApi).", "6 C07"),
     "C20": ("CGLint states lint's rules one by one; the outcome of cg.lint under all 16 flag combinations on TLC-enumerated "
             "two-node graphs (all types incl. missing/unsupported, all edges, registry), random ill-formed and well-formed graphs "
             "is judged by TLC (raises ValueError iff a rule is violated); outputs of generators, composition calls and transforms "
@@ -84,7 +99,9 @@ CLAIMED = {
             "several hash seeds) is judged by TLC against Consistent(c).", "6 C01"),
     "C05": ("Every recorded limit_fanin/limit_fanout/insert_registers/acyclic_unroll call on TLC-enumerated families (G1, G2, "
             "W) and random DAGs under several hash seeds is judged by TLC: bound respected, io unchanged, every original node "
-            "keeps its Kleene truth table; MCLimitFanin explores every operand-grouping order of the as-built loop.", "6 C05"),
+            "keeps its Kleene truth table; MCLimitFanin explores every operand-grouping order of the as-built loop; MCLimitFanout "
+            "and MCInsertRegs judge every possible result of the as-built limit_fanout loop / the insert_registers program on all "
+            "DAG shapes with 5 (6) nodes; recorded results must be among the models' results (drift clauses).", "6 C05"),
 }
 
 
